@@ -220,7 +220,11 @@ def c12(kind, case, r):
             why = "worker processes %r still alive when %s returned" % (s["procs_alive"], s["op"])
             if closed_before(r, s["op_index"]):
                 return tag(why, "D24")
-            if has_fail(case) and r["outcomes"][s["op_index"]][-1] != "ok":
+            outc = r["outcomes"][s["op_index"]][-1] if s["op_index"] < len(r["outcomes"]) else "blocked"
+            if has_fail(case) and outc != "ok":
+                owner = {lab[1]: pick for en, pick, lab in r["trace"] if lab[0] == "spawn"}
+                if case["mode"] == "block" and any(owner.get(p) not in s.get("threads_live", []) for p in s["procs_alive"]):
+                    return why + " (and the thread that owned it has already ended: a failing call did not shut its worker down)"
                 return tag(why, "D16")
             return why
     if r["verdict"] in ("done", "quiescent"):
